@@ -1,3 +1,3 @@
 From Coq Require Import ExtrOcamlBasic.
-From ChibiV Require Import Common.ExtractBase C16.Model C16.History C16.NumOs.
-Extraction "model.ml" ext_base gc gc_pinned gc_after_mark mark_loop step run init mem madd nstep nrun ninit names.
+From ChibiV Require Import Common.ExtractBase C16.Model C16.History C16.NumOs C16.Gate C16.AutoGc.
+Extraction "model.ml" ext_base gc gc_pinned gc_after_mark mark_loop step run init mem madd nstep nrun ninit names step_sched run_sched pinned_policy.
